@@ -646,8 +646,9 @@ func (t *Tree) Compile(file string, args []string, out io.Writer) (err error) {
 			}
 		}
 	}
-	/* sort imports to satisfy gofmt */
+	/* sort imports to satisfy gofmt; a package the grammar imports may also be a runtime import */
 	slices.Sort(t.Imports)
+	t.Imports = slices.Compact(t.Imports)
 
 	/* second pass */
 	for _, n := range slices.Collect(t.Iterator()) {
